@@ -293,11 +293,15 @@ func (root *Root) addExtends(extends ...*Extend) (err error) {
 			if cur == nil {
 				cur = root.dirs.get(x.Adds.Name())
 			}
-		} else if schema, _ := x.Adds.(*Schema); schema != nil {
+		} else if schema, _ := x.Adds.(*Schema); schema != nil && root.schema != nil {
 			cur = root.schema
 		}
 		if cur == nil {
-			return fmt.Errorf("%s can not be extended because it was %w", x.Adds.Name(), ErrNotFound)
+			name := x.Adds.Name()
+			if len(name) == 0 {
+				name = schemaStr
+			}
+			return fmt.Errorf("%s can not be extended because it was %w", name, ErrNotFound)
 		}
 		if reflect.TypeOf(x.Adds) != reflect.TypeOf(cur) {
 			return fmt.Errorf("%w: %s, a %T can not extend a %T", ErrTypeMismatch, x.Adds.Name(), x.Adds, cur)
